@@ -348,6 +348,23 @@ def install(ctx):
                             "tables": p["tables"], "basins": p["basins"]}
                     check_hdf5(ctx, path, snap, p["filtered"], p["logs"], p["tables"],
                                p["meta_prefix"], desc)
+                    # exporting is a read-only operation on the source: its metadata afterwards
+                    # are what they were before (a second export must carry the same values)
+                    ds_ = self.rtdc_ds
+                    changed = []
+                    for sec, before in snap["config"].items():
+                        if sec == "filtering":
+                            continue
+                        after = dict(ds_.config[sec]) if sec in ds_.config else {}
+                        for k in set(before) | set(after):
+                            if k not in before or k not in after \
+                                    or not dscmp.cfg_value_equal(before[k], after[k]):
+                                changed.append([sec, k, repr(before.get(k, "<absent>"))[:60],
+                                                repr(after.get(k, "<absent>"))[:60]])
+                    ctx.check("c02.hdf5.source_metadata_unchanged", not changed,
+                              lambda: dict(desc, changed=changed[:6]),
+                              message=f"export.hdf5 changed the metadata of the source "
+                                      f"dataset: {changed[:3]}")
                 except Exception as exc:
                     ctx.error("export.check_hdf5", exc)
             return res
